@@ -62,6 +62,7 @@ type Contract struct {
 	NoPanic  bool
 	Trusted  string
 	Lets     []LetSpec
+	ScopePkg string   // package path whose scope resolves identifiers (extern contracts declared in a package file)
 	ModAny   bool     // `modifies anything`: no frame is claimed; callers havoc the heap
 	Lemma    bool     // a contract-only obligation (no code): `lemma name` blocks
 	Params   []string // for lemma blocks: "x Real" declarations
